@@ -21,13 +21,20 @@ def contract_cf(cfg):
 
 def run_filter_program(prog, trace_id, keep_state=True):
     """Execute prog.steps on a fresh FilterRig; return the trace record."""
-    rig = FilterRig(prog.cfg)
+    stream = getattr(prog, "route", "hook") == "stream"
+    if stream:
+        from harness.rig import StreamRig
+        rig = StreamRig(prog.cfg, salt=getattr(prog, "seed", 0) or 0)
+    else:
+        rig = FilterRig(prog.cfg)
     events = []
     for step in prog.steps:
         before = alpha_state(rig.state)
         if step[0] == "g":
             event = rig.gcode(step[1], step[2] if len(step) > 2 else None)
         elif step[0] == "at":
+            if stream and len(step) > 3 and step[3]:
+                continue        # "streaming to SD" does not exist on this route (a no-op anyway)
             event = rig.at(step[1], step[2], step[3] if len(step) > 3 else False)
         elif step[0] == "addr":
             event = rig.add_region(step[1])
@@ -51,7 +58,7 @@ def run_filter_program(prog, trace_id, keep_state=True):
 
 def program_to_json(prog):
     return {"cfg": prog.cfg, "seed": prog.seed, "steps": [list(s) for s in prog.steps],
-            "focus": getattr(prog, "focus", "")}
+            "focus": getattr(prog, "focus", ""), "route": getattr(prog, "route", "hook")}
 
 
 # ---------------------------------------------------------------------------------------------
@@ -198,10 +205,10 @@ def run_plugin_history(hist, trace_id, keep_state=True):
         events.append(common_fields(event, before))
         if kind == "get":
             events[-1]["rl"] = events[-1].pop("got")
-    return {"id": trace_id, "active0": False, "q": Q_TRACE, "tol": TOL_TRACE,
+    return {"id": trace_id, "active0": False, "q": getattr(hist, "q", Q_TRACE), "tol": TOL_TRACE,
             "cf": cf0, "cfx": cfx0, "ev": events}
 
 
 def history_to_json(hist):
     return {"seed": hist.seed, "g90e": hist.g90e, "focus": getattr(hist, "focus", ""),
-            "steps": [list(s) for s in hist.steps]}
+            "q": getattr(hist, "q", Q_TRACE), "steps": [list(s) for s in hist.steps]}
